@@ -31,6 +31,8 @@ type Options struct {
 	Config     string            // extra YAML appended to the config file
 	DataDir    string            // default: fresh temp dir (removed at cleanup)
 	Strict     bool
+	// SameAddress binds the internal and the public HTTP interface to one address (one listener serves both).
+	SameAddress bool
 }
 
 // Node is a running in-process node.
@@ -77,6 +79,9 @@ func Start(t testing.TB, o Options) *Node {
 		}
 		t.Cleanup(func() { os.RemoveAll(dir) })
 	}
+	if err := os.MkdirAll(dir, 0o755); err != nil {
+		t.Fatal(err)
+	}
 	if len(o.DIDMethods) == 0 {
 		o.DIDMethods = []string{"web"}
 	}
@@ -89,6 +94,9 @@ func Start(t testing.TB, o Options) *Node {
 	}
 	pub := fmt.Sprintf("localhost:%d", freePort())
 	in := fmt.Sprintf("localhost:%d", freePort())
+	if o.SameAddress {
+		in = pub
+	}
 	env := map[string]string{
 		"NUTS_DATADIR":               dir,
 		"NUTS_CONFIGFILE":            cfgFile,
